@@ -181,8 +181,8 @@ def bfs(ctx, cls, depth, max_states, roots, with_empty):
             g = rebuild(cls, hist)
             try:
                 check_fault(cls, g, m, f)
-            except Violation as v:
-                ctx.fail_now(v, {"cls": cls, "ops": hist, "faults": [f]})
+            except Exception as v:
+                ctx.fail_exc(v, {"cls": cls, "ops": hist, "faults": [f]})
         for q in enumerate_queries(m):
             if not O.query_available(cls, q):
                 continue
@@ -190,8 +190,8 @@ def bfs(ctx, cls, depth, max_states, roots, with_empty):
             g = rebuild(cls, hist)
             try:
                 check_lookup(cls, g, m, q)
-            except Violation as v:
-                ctx.fail_now(v, {"cls": cls, "ops": hist,
+            except Exception as v:
+                ctx.fail_exc(v, {"cls": cls, "ops": hist,
                                  "faults": [["q", q]]})
 
     def enter(hist, m, op):
